@@ -188,10 +188,11 @@ PROPS = {
         explanation='Graph model (nodes: id -> Node, edges: destination -> incoming edges): wf = every node stored under its id, every edge connects two existing nodes, at most one edge per ordered pair; '
                     'wf is preserved by Graph::new / add_node / add_edge / set_state / set_weight / remove_node / remove_edge (proved) and is part of the state invariant every GRAPH.* row re-establishes; add_edge adds the edge exactly when both nodes exist and not twice; '
                     'get_state / set_state / node_size / get_weight / set_weight against the map model (weight_of = weight of the first incoming edge of the destination that starts at the origin; set_weight changes that edge only and keeps wf -- no longer a trusted contract; remove_node (R9j: the iter_mut loop as a loop over the collected keys) removes the node, its incoming list and from every other list the edge that starts at it, nothing else, and keeps wf; remove_edge leaves exactly the incoming edges of the destination that do not start at the origin and keeps wf -- so EVERY mutator of the Graph API preserves wf, and the invariant holds after any sequence of operations; GRAPH.EDGE*GETWEIGHT / SETWEIGHT rows with values; the queries against the model: GRAPH.NODE*PREDECESSORS = exactly the origins of the node\'s incoming edges whose node exists in an admitted state, in edge-list order; GRAPH.NODE*SUCCESSORS / Graph::filter / GRAPH.NODES / NODES*HISTORY (HashMap order is unspecified, so as sets): only admitted successors / nodes, and every one of them; GRAPH.NODE*NEIGHBORS = the predecessors followed by the successors; NODES*HISTORY / NODE*HISTORY / EDGE*HISTORY read the snapshot at the requested depth (EDGE*HISTORY ignored depth 0: repaired; its println! is dropped by R12); GRAPH.NODE*ADD / GETSTATE / SETSTATE / HISTORY / EDGE*ADD rows with values; the graph stack keeps its depth and only the newest graph may change '
-                    '(older snapshots untouched); DUP pushes a structural copy',
-        not_decided=['diff / edge_size (string building; used by printing only): bodies external',
+                    '(older snapshots untouched); DUP pushes a structural copy; Edge::diff / Node::diff return None exactly for equal origin+weight / id+state',
+        not_decided=['Graph::diff / edge_size (nested HashMap iteration with a `find` closure, string building): bodies external; of "the textual diff is empty exactly when two snapshots are the same" '
+                     'only the two leaf comparisons are decided: Edge::diff is None exactly for equal origin and weight, Node::diff exactly for equal id and state',
                      'operands that are negative INTEGERs reach the graph as `as usize` casts, which Verus leaves unspecified: the EDGE*GETWEIGHT / SETWEIGHT value clauses are stated for non-negative ids (seed C18-7 is missed for that reason)',
-                     'the textual diff (string building) is external'],
+                     ],
     ),
     'C19': dict(
         level='proof',
